@@ -42,6 +42,7 @@ type W struct {
 	finished bool
 	blocked  bool    // last TryLock failed
 	lockKey  uintptr // which lock
+	lockW    bool    // ... for writing
 	site     int
 	events   []Event
 	step     int
@@ -204,16 +205,29 @@ func (s *Sched) LockHook(site int, m *sync.Mutex, rw *sync.RWMutex, write bool) 
 		ok := true
 		switch {
 		case m != nil:
+			w.lockKey, w.lockW = uintptr(unsafe.Pointer(m)), true
 			if ok = m.TryLock(); ok {
 				m.Unlock()
 			}
 		case rw != nil && write:
+			w.lockKey, w.lockW = uintptr(unsafe.Pointer(rw)), true
 			if ok = rw.TryLock(); ok {
 				rw.Unlock()
 			}
 		case rw != nil:
+			w.lockKey, w.lockW = uintptr(unsafe.Pointer(rw)), false
 			if ok = rw.TryRLock(); ok {
 				rw.RUnlock()
+			}
+			// sync.RWMutex prefers writers: a Lock call that is waiting keeps
+			// new readers out. A writer here "waits" when its last attempt on
+			// this lock failed and it has not got through since. (Without this
+			// a read lock taken twice by one goroutine with a writer arriving
+			// in between - a deadlock in a real run - would pass unnoticed.)
+			for _, o := range s.workers {
+				if o != w && !o.finished && o.blocked && o.lockW && o.lockKey == w.lockKey {
+					ok = false
+				}
 			}
 		}
 		if ok {
